@@ -246,3 +246,90 @@ func (scriptReached) State(c *explore.Ctx, w *world.World) {
 		c.Class("high-nonce-reached")
 	}
 }
+
+// ---------------------------------------------------------------------------------------------
+// wide transfers: word-boundary quantities and long entry lists, same-shard and cross-shard
+
+// wideTransfersProfile moves quantities around 2^63 / 2^64 / k*2^64 (in every encoding width the
+// functions accept) and lists of 255..300 entries through all three transfer functions, followed
+// by the deliveries (and refunds) they cause.
+func wideTransfersProfile(tier Tier, oracles []explore.Oracle) *explore.Profile {
+	two63 := new(big.Int).Lsh(big.NewInt(1), 63)
+	two64 := new(big.Int).Lsh(big.NewInt(1), 64)
+	tenE18, _ := new(big.Int).SetString("10000000000000000000", 10)
+	prior := new(big.Int).Add(new(big.Int).Mul(two64, big.NewInt(6)), big.NewInt(1000))
+	a0, b0, c1, s1 := uni.A0, uni.B0, uni.C1, uni.S1c
+	qs := [][]byte{two63.Bytes(), tenE18.Bytes(), new(big.Int).Sub(two64, big.NewInt(1)).Bytes(), two64.Bytes(),
+		new(big.Int).Add(two64, big.NewInt(1)).Bytes(), new(big.Int).Mul(two64, big.NewInt(2)).Bytes(),
+		append([]byte{0}, tenE18.Bytes()...), new(big.Int).Sub(two63, big.NewInt(1)).Bytes(), new(big.Int).Lsh(big.NewInt(1), 32).Bytes()}
+	counts := []int{255, 256, 257, 300}
+	if tier.Thorough() {
+		counts = append(counts, 511, 512, 513, 65536)
+	}
+	depth := 2
+	if tier.Thorough() {
+		depth = 3
+	}
+	call := uni.Call
+	return &explore.Profile{
+		Name: "wide-transfers", EnvCfg: ledgerEnv(2), Depth: depth, Deadline: tierDeadline(tier), Oracles: oracles,
+		Seeds: func(env *world.Env) []explore.SeedState {
+			b := uni.NewBuilder(env)
+			b.Must(uni.SetRole(a0, uni.F, vmcommon.ESDTRoleLocalMint, vmcommon.ESDTRoleLocalBurn))
+			b.Must(uni.SetRole(a0, uni.S, uni.NFTRoles...))
+			b.Must(call(a0, a0, vmcommon.BuiltInFunctionESDTLocalMint, uni.F, prior.Bytes()))
+			b.Must(call(a0, a0, vmcommon.BuiltInFunctionESDTNFTCreate, uni.S, prior.Bytes(), []byte("n"), uni.Big(1), []byte("h"), []byte("a"), []byte("u")))
+			b.Must(call(a0, a0, vmcommon.BuiltInFunctionESDTNFTCreate, uni.S, uni.Big(400), []byte("n"), uni.Big(1), []byte("g"), []byte("a"), []byte("u")))
+			// the receivers already hold something, so that sums cross the word boundary too
+			b.Must(call(a0, c1, vmcommon.BuiltInFunctionESDTTransfer, uni.F, new(big.Int).Sub(two64, big.NewInt(3)).Bytes())).DeliverAll()
+			b.Must(call(a0, b0, vmcommon.BuiltInFunctionESDTTransfer, uni.F, big.NewInt(1).Bytes()))
+			return []explore.SeedState{{Name: "wide", W: b.W, Legs: b.Legs, Failed: b.Failed}}
+		},
+		Menu: func(w *world.World) []world.Action {
+			var acts []world.Action
+			if len(w.Inflight) == 0 && spec.Held(w.Get(a0), tF).Cmp(new(big.Int).Mul(two64, big.NewInt(4))) > 0 {
+				for _, to := range [][]byte{c1, b0, s1} {
+					for _, q := range qs {
+						acts = append(acts,
+							call(a0, to, vmcommon.BuiltInFunctionESDTTransfer, uni.F, q),
+							call(a0, a0, vmcommon.BuiltInFunctionESDTNFTTransfer, uni.S, uni.Big(1), q, to),
+							call(a0, a0, vmcommon.BuiltInFunctionMultiESDTNFTTransfer, to, uni.Big(1), uni.F, []byte{}, q),
+							call(a0, a0, vmcommon.BuiltInFunctionMultiESDTNFTTransfer, to, uni.Big(1), uni.S, uni.Big(1), q),
+							call(a0, a0, vmcommon.BuiltInFunctionMultiESDTNFTTransfer, to, uni.Big(2), uni.F, []byte{}, q, uni.S, uni.Big(1), q),
+						)
+					}
+					for _, n := range counts {
+						for _, shape := range []string{"fungible", "sft", "alternating"} {
+							args := [][]byte{to, big.NewInt(int64(n)).Bytes()}
+							for i := 0; i < n; i++ {
+								switch {
+								case shape == "fungible" || (shape == "alternating" && i%2 == 0):
+									args = append(args, uni.F, []byte{}, uni.Big(1))
+								default:
+									args = append(args, uni.S, uni.Big(2), uni.Big(1))
+								}
+							}
+							a := call(a0, a0, vmcommon.BuiltInFunctionMultiESDTNFTTransfer, args...)
+							a.Gas = 1 << 40
+							acts = append(acts, a)
+							if vmcommon.IsSmartContractAddress(to) {
+								f := call(a0, a0, vmcommon.BuiltInFunctionMultiESDTNFTTransfer, append(args, []byte("f"), []byte("x"))...)
+								f.Gas = 1 << 40
+								acts = append(acts, f)
+							}
+						}
+					}
+				}
+			}
+			// the receivers send back what they got (sums and differences around the boundary)
+			for _, from := range [][]byte{c1, b0} {
+				h := spec.Held(w.Get(from), tF)
+				if h.Cmp(two63) >= 0 && len(w.Inflight) == 0 {
+					acts = append(acts, call(from, a0, vmcommon.BuiltInFunctionESDTTransfer, uni.F, h.Bytes()),
+						call(from, from, vmcommon.BuiltInFunctionMultiESDTNFTTransfer, a0, uni.Big(1), uni.F, []byte{}, new(big.Int).Sub(h, big.NewInt(1)).Bytes()))
+				}
+			}
+			return append(acts, deliveries(w)...)
+		},
+	}
+}
